@@ -67,3 +67,15 @@ package engine
 //@ func (*StorageEngine).Evacuate
 //@   property C19
 //@   loop 7 iteration [next_object_only_when_this_one_is_safe] objectSafe() || (readFailed() && ignoreErrors)
+
+// The pass moves on to the next source shard only when the current shard's listing ended
+// (end of listing / degraded shard), never from the middle of a listed batch.
+//@ ghost pred listingEnded() bool
+//@ callrule c19_listing_verdict in (*StorageEngine).Evacuate
+//@   property C19
+//@   callee (*shard.Shard).ListWithCursor
+//@   pureeffect
+//@   defines err != nil ==> listingEnded()
+//@ func (*StorageEngine).Evacuate
+//@   property C19
+//@   loop 5 iteration [next_shard_only_after_the_listing_ended] listingEnded()
